@@ -31,6 +31,9 @@
 //! without the hassle of having to go online for your answers.
 
 #![deny(missing_docs)]
+// `anything_verif` guards hooks for external verification tooling.
+#![allow(unknown_lints)]
+#![allow(unexpected_cfgs)]
 
 mod compound;
 mod config;
@@ -48,6 +51,10 @@ pub mod syntax;
 mod unit;
 mod unit_parser;
 pub mod units;
+
+#[cfg(anything_verif)]
+#[doc(hidden)]
+pub use self::eval::verif_hooks as verif;
 
 pub use self::compound::Compound;
 pub use self::db::{Constant, Db, Source};
